@@ -127,6 +127,34 @@ def shared_table_rule(R7, mods):
         if isinstance(v, ast.Subscript) and isinstance(v.slice, ast.Slice):
             return False
         return isinstance(v, (ast.Name, ast.Attribute, ast.Subscript))
+    # functions that hand out shared storage: a method of a class with a module-level instance (x86mndb = x86allmncs()) returning self.<table> or an
+    # element of it, or a function returning (an element of) a module-level object.  A local bound to the result of such a call aliases the table.
+    hands_out = {}
+    for m in mods:
+        glob0 = set()
+        inst_classes = set()
+        for st in m.tree.body:
+            if isinstance(st, ast.Assign):
+                glob0.update(t.id for t in st.targets if isinstance(t, ast.Name))
+                if isinstance(st.value, ast.Call) and isinstance(st.value.func, ast.Name):
+                    inst_classes.add(st.value.func.id)
+        for cname, fn in all_functions(m):
+            loc0 = set(a.arg for a in fn.args.args) | set(x.id for x in ast.walk(fn) if isinstance(x, ast.Name) and isinstance(x.ctx, ast.Store))
+            for r_ in ast.walk(fn):
+                if not (isinstance(r_, ast.Return) and r_.value is not None and is_alias_expr(r_.value)) or isinstance(r_.value, ast.Name):
+                    continue
+                root = root_name(r_.value)
+                if (cname in inst_classes and root == 'self' and isinstance(r_.value, (ast.Attribute, ast.Subscript))) or (root in glob0 and root not in loc0):
+                    hands_out.setdefault(fn.name, []).append('%s%s returns %s' % ((cname + '.') if cname else '', fn.name, u(r_.value)))
+    for common in ('get', 'pop', 'copy', 'keys', 'values', 'items', 'index', '__init__', '__getitem__'):
+        hands_out.pop(common, None)
+
+    def shared_call(v):
+        if isinstance(v, ast.Call):
+            nm = v.func.attr if isinstance(v.func, ast.Attribute) else v.func.id if isinstance(v.func, ast.Name) else None
+            if nm in hands_out:
+                return hands_out[nm][0]
+        return None
     for m in mods:
         glob = set()
         for st in m.tree.body:
@@ -171,6 +199,11 @@ def shared_table_rule(R7, mods):
                 if r in localnames and isinstance(tgt, ast.Name) and r not in params:
                     shared = [b for b in binds.get(r, []) if b.lineno <= n.lineno and is_alias_expr(b.value) and root_name(b.value) in glob
                               and root_name(b.value) not in localnames and _reaches(b, n, binds.get(r, []), fn)]
+                    handed = [b for b in binds.get(r, []) if b.lineno <= n.lineno and shared_call(b.value) and _reaches(b, n, binds.get(r, []), fn)]
+                    if handed and not shared:
+                        bad = True
+                        R7.violation(inst, 'shared-table:%s:%s:%s' % (fn.name, u(handed[-1].value.func), what), '%s binds the local %s to the result of %s (%s: the table itself, not a copy) and '
+                                     'mutates it in place (%s): every later call sees the changed table' % (fn.name, r, u(handed[-1].value.func), shared_call(handed[-1].value), what), where(m, n))
                     if shared:
                         bad = True
                         R7.violation(inst, 'shared-table:%s:%s:%s' % (fn.name, u(shared[-1].value), what), '%s binds the local %s to the shared table %s and mutates it in place (%s): every '
@@ -181,6 +214,104 @@ def shared_table_rule(R7, mods):
                     R7.violation(inst, 'shared-table:%s:%s:%s' % (fn.name, u(tgt), what), '%s mutates the module-level object %s in place (%s)' % (fn.name, u(tgt), what), where(m, n))
             if not bad:
                 R7.ok(inst, nontrivial=(len(R7.nontrivial) < 400))
+
+
+MEMO_DECORATORS = ('lru_cache', 'cache', 'memoize', 'memoized', 'memoise', 'cached')
+
+
+def _memoised_functions(mods_or_tree):
+    out = {}
+    trees = [(getattr(m, 'name', '<example>'), getattr(m, 'tree', m)) for m in mods_or_tree]
+    for mname, tree in trees:
+        for n in ast.walk(tree):
+            if isinstance(n, ast.FunctionDef):
+                for d in n.decorator_list:
+                    f = d.func if isinstance(d, ast.Call) else d
+                    nm = f.attr if isinstance(f, ast.Attribute) else f.id if isinstance(f, ast.Name) else None
+                    if nm in MEMO_DECORATORS:
+                        out[n.name] = '%s.%s (@%s)' % (mname, n.name, u(f))
+            # name = lru_cache(..)(name) / name = memoize(name)
+            if isinstance(n, ast.Assign) and len(n.targets) == 1 and isinstance(n.targets[0], ast.Name) and isinstance(n.value, ast.Call) and n.value.args \
+                    and isinstance(n.value.args[0], ast.Name) and n.value.args[0].id == n.targets[0].id:
+                f = n.value.func.func if isinstance(n.value.func, ast.Call) else n.value.func
+                nm = f.attr if isinstance(f, ast.Attribute) else f.id if isinstance(f, ast.Name) else None
+                if nm in MEMO_DECORATORS:
+                    out[n.targets[0].id] = '%s.%s (= %s(..))' % (mname, n.targets[0].id, u(f))
+    return out
+
+
+def _memo_edits(tree, memo):
+    """(function, node, description) for every in-place edit of a cached result inside the functions of `tree`."""
+    found = []
+
+    def is_memo_call(v):
+        if isinstance(v, ast.Call):
+            nm = v.func.attr if isinstance(v.func, ast.Attribute) else v.func.id if isinstance(v.func, ast.Name) else None
+            return nm in memo
+        return False
+    for fn in [n for n in ast.walk(tree) if isinstance(n, ast.FunctionDef)]:
+        obj, cont = set(), set()
+        changed = True
+        while changed:
+            changed = False
+            for n in ast.walk(fn):
+                if isinstance(n, ast.Assign) and len(n.targets) == 1 and isinstance(n.targets[0], ast.Name):
+                    t, v = n.targets[0].id, n.value
+                    if (is_memo_call(v) or (isinstance(v, ast.Name) and v.id in obj) or (isinstance(v, ast.Subscript) and isinstance(v.value, ast.Name) and v.value.id in cont
+                                                                                         and not isinstance(v.slice, ast.Slice))) and t not in obj:
+                        obj.add(t)
+                        changed = True
+                    if ((isinstance(v, (ast.ListComp, ast.List, ast.Tuple)) and any(is_memo_call(x) or (isinstance(x, ast.Name) and x.id in obj) for x in ast.walk(v)))
+                            or (isinstance(v, ast.Name) and v.id in cont) or (isinstance(v, ast.Subscript) and isinstance(v.slice, ast.Slice) and isinstance(v.value, ast.Name) and v.value.id in cont)
+                            or (isinstance(v, ast.Call) and isinstance(v.func, ast.Name) and v.func.id in ('list', 'tuple', 'sorted', 'reversed') and v.args and isinstance(v.args[0], ast.Name)
+                                and v.args[0].id in cont)) and t not in cont:
+                        cont.add(t)
+                        changed = True
+                if isinstance(n, (ast.For, ast.comprehension)) and isinstance(n.target, ast.Name) and isinstance(n.iter, ast.Name) and n.iter.id in cont and n.target.id not in obj:
+                    obj.add(n.target.id)
+                    changed = True
+        if not obj and not cont:
+            continue
+        for n in ast.walk(fn):
+            tgt = what = None
+            if isinstance(n, ast.Call) and isinstance(n.func, ast.Attribute) and n.func.attr in MUT:
+                tgt, what = n.func.value, '.%s()' % n.func.attr
+            elif isinstance(n, (ast.Assign, ast.AugAssign)):
+                for tg in (n.targets if isinstance(n, ast.Assign) else [n.target]):
+                    if isinstance(tg, (ast.Subscript, ast.Attribute)):
+                        tgt, what = tg.value, 'item / attribute assignment'
+            elif isinstance(n, ast.Delete):
+                for tg in n.targets:
+                    if isinstance(tg, ast.Subscript):
+                        tgt, what = tg.value, 'item deletion'
+            if tgt is None:
+                continue
+            # the edited object: a cached result itself, or an element of a list of cached results
+            if isinstance(tgt, ast.Name) and tgt.id in obj:
+                found.append((fn, n, '%s (a cached result): %s' % (tgt.id, what)))
+            elif isinstance(tgt, ast.Subscript) and isinstance(tgt.value, ast.Name) and tgt.value.id in cont and not isinstance(tgt.slice, ast.Slice):
+                found.append((fn, n, '%s (an element of a list of cached results): %s' % (u(tgt), what)))
+    return found
+
+
+def memoised_results_rule(R, mods):
+    # the rule must fire on a small positive example on every run (expected count on the repository is zero)
+    example = ast.parse("import functools\n@functools.lru_cache(maxsize=None)\ndef parse(a):\n    return {'k': a}\ndef user(xs):\n    args = [parse(x) for x in xs]\n    args[0]['k'] = 1\n"
+                        "def user2(x):\n    d = parse(x)\n    d.update(z=1)\n")
+    ex_memo = _memoised_functions([example])
+    if len(_memo_edits(example, ex_memo)) != 2:
+        raise AnalysisError('C12.D13: the built-in positive example is no longer recognised')
+    memo = _memoised_functions(mods)
+    if not memo:
+        R.ok('no cached function', sample='no function of the API modules is wrapped by a result cache (positive example recognised)')
+        return
+    for m in mods:
+        for fn, n, desc in _memo_edits(m.tree, memo):
+            R.violation('%s::%s' % (m.name, fn.name), 'memoised-result-edited:%s:%s' % (fn.name, desc.split(':')[0][:60]), '%s edits %s; the result comes from %s, which returns the same object '
+                        'for the same argument: the next call with that argument gets the edited object' % (fn.name, desc, ', '.join(sorted(memo.values()))), where(m, n),
+                        witness="asm('inc BYTE PTR [eax]') after asm('prefetcht0 BYTE PTR [eax]')")
+    for name, desc in sorted(memo.items()):
+        R.ok('cached:%s' % name, sample='%s: callers scanned for edits of its results' % desc)
 
 
 READONLY_METHODS = ('__str__', 'breakflow', 'splitflow', 'dstflow', 'getdstflow', 'getnextflow', 'is_subcall', 'is_mem')
@@ -532,6 +663,10 @@ def run(ctx, report):
                     R7.ok(inst, nontrivial=(len(R7.nontrivial) < 420))
     if n_shared == 0:
         raise AnalysisError('no module-level instance with run-time methods found (x86mndb = x86allmncs() expected)')
+
+    R13 = report.rule('C12.D13', 'a function whose results are cached (functools.lru_cache / cache, memoize decorators) hands out the same object for the same argument: no caller edits '
+                      'such a result (directly, as element of a list of results, or through a loop variable)', floor=1)
+    memoised_results_rule(R13, mods)
 
     R12 = report.rule('C12.D12', 'a semantic function never returns a module-level list (its callers extend what they are given)', floor=1)
     fresh_result_rule(ctx, R12)
